@@ -70,6 +70,8 @@ SUPPORTED_TAGS = b',$#~'
 LISTED_UNIMPLEMENTED_TAGS = b'^!]}'
 DELIMS = frozenset(b':,#$~!^]}?')
 INT_LIMIT = 10 ** 400
+# development aid only: scales the *thorough* case counts (a scaled run falls below MIN_EVALUATIONS => exit 2)
+SCALE = float(os.environ.get('VP_C20_SCALE', '1') or '1')
 
 
 def _impl():
@@ -1096,6 +1098,9 @@ def run(tier, seed):
     if thorough:
         shards, n_rt, n_st, n_raw = 48, 12000, 5000, 3000
         max_bytes, max_items, stream_bytes = 1000000, 5000, 20000
+        if SCALE != 1.0:
+            n_rt, n_st, n_raw = [max(20, int(x * SCALE)) for x in (n_rt, n_st, n_raw)]
+            stats.notes.append('VP_C20_SCALE=%r: thorough case counts scaled (development aid)' % SCALE)
     else:
         shards, n_rt, n_st, n_raw = 16, 800, 450, 300
         max_bytes, max_items, stream_bytes = 10001, 1500, 3000
@@ -1103,7 +1108,7 @@ def run(tier, seed):
                     stats=stats)
     if thorough:
         if atheris_available():
-            common.parallel(shard_atheris, [(seed, i, 25000) for i in range(8)], procs=8, stats=stats)
+            common.parallel(shard_atheris, [(seed, i, max(500, int(25000 * SCALE))) for i in range(8)], procs=8, stats=stats)
             stats.notes.append('atheris: 8 x 25000 coverage-guided executions of the raw clause (whole + bytewise)')
         else:
             stats.notes.append('atheris not importable: coverage-guided raw-bytes differential skipped '
